@@ -631,7 +631,11 @@ impl IgnoreBuilder {
         let git_global_matcher = if !self.opts.git_global {
             Gitignore::empty()
         } else {
-            let mut builder = GitignoreBuilder::new("");
+            // Its rules apply relative to the current working directory,
+            // which is what lets them match when the paths being searched
+            // are absolute.
+            let cwd = std::env::current_dir().unwrap_or_default();
+            let mut builder = GitignoreBuilder::new(cwd);
             builder
                 .case_insensitive(self.opts.ignore_case_insensitive)
                 .unwrap();
